@@ -390,7 +390,7 @@ def cc_part(ctx, d):
     the proved model, so only the safety predicates on the observed states are evaluated."""
     batches = [(7000000, 500, 400)] if ctx.tier == "quick" else [(7000000, 15000, 400), (8000000, 200, 3000)]
     tot = ev = conf = leaders = 0
-    vev = vsw = vok = 0
+    vev = vsw = vok = venv = vcfgmax = 0
     viol = None
     bi = 0
     for first, count, nev in batches:
@@ -420,6 +420,8 @@ def cc_part(ctx, d):
                     vev += int(kv["events"])
                     vsw += int(kv["confswitches"])
                     vok += 1
+                    venv += int(kv["envelope"])
+                    vcfgmax = max(vcfgmax, int(kv["configs"]))
                 elif dev is None:
                     dev = (t[1], line)
             for line in (b / "monitor.txt").read_text().splitlines():
@@ -469,6 +471,7 @@ def cc_part(ctx, d):
                     pass
             k += c
     stats = dict(cc_validated_schedules=vok, cc_validated_events=vev, cc_config_switches_validated=vsw,
+                 cc_schedules_inside_proved_envelope=venv, cc_max_distinct_configurations_in_a_schedule=vcfgmax,
                  cc_schedules=tot, cc_events=ev, cc_conf_changes_committed=conf, cc_terms_with_a_leader=leaders,
                  cc_scope="; ".join("%d schedules x %d events" % (c, n) for _, c, n in batches))
     return stats, viol, None
